@@ -186,15 +186,19 @@ class Runner:
                 out[0] = f(a, idx, efl, wvl, odx, samples, shift=shift, method=method)
         return out[0]
 
-    def tfb(self, a, dx, efl, wvl, fpm, fpm_dx, shift, method, desc, key, use_wf=False):
+    def tfb(self, a, dx, efl, wvl, fpm, fpm_dx, shift, method, desc, key, use_wf=False, more=False):
+        """to_fpm_and_back through the function or the Wavefront method; more=True asks for return_more and keeps
+        the first element (the field at the next pupil) -- the same quantity through the other return path."""
         P = self.P
         out = [None]
         rkey = RAISE_CZT_SHIFT if (method == 'czt' and (shift[0] != 0 or shift[1] != 0)) else key
         with self.ctx.guard(rkey, desc, what=f'to_fpm_and_back(method={method})'):
             if use_wf:
-                out[0] = P.Wavefront(a, wvl, dx).to_fpm_and_back(efl, fpm, fpm_dx, method=method, shift=shift).data
+                r = P.Wavefront(a, wvl, dx).to_fpm_and_back(efl, fpm, fpm_dx, method=method, shift=shift, return_more=more)
+                out[0] = (r[0] if more else r).data
             else:
-                out[0] = P.to_fpm_and_back(a, dx, efl, wvl, fpm, fpm_dx, shift=shift, method=method)
+                r = P.to_fpm_and_back(a, dx, efl, wvl, fpm, fpm_dx, shift=shift, method=method, return_more=more)
+                out[0] = r[0] if more else r
         return out[0]
 
 
@@ -436,7 +440,7 @@ def wl_allpass(ctx, R):
                         a = cnormal(r2, shp)
                         if rel == 'identity':
                             ones = np.ones((P_, P_)) if v % 3 else np.ones((P_, P_), dtype=complex)
-                            o = R.tfb(a, dx, efl, wvl, ones, fdx, shift, method, desc, key, use_wf)
+                            o = R.tfb(a, dx, efl, wvl, ones, fdx, shift, method, desc, key, use_wf, more=bool((v // 7) % 3 == 0))
                             if o is None:
                                 continue
                             close(ctx, 'allpass-identity', o, a, key, tfb_what(method, label, shifted), desc, rtol=RTOL)
@@ -498,7 +502,7 @@ def wl_masks(ctx, R):
                                 key = f'C05/mask-additivity/{method}'
                                 t1 = R.tfb(a, dx, efl, wvl, m1, fdx, shift, method, desc, key, use_wf)
                                 t2 = R.tfb(a, dx, efl, wvl, 1 - m1, fdx, shift, method, desc, key, use_wf)
-                                t3 = R.tfb(a, dx, efl, wvl, one, fdx, shift, method, desc, key, use_wf)
+                                t3 = R.tfb(a, dx, efl, wvl, one, fdx, shift, method, desc, key, use_wf, more=bool((v // 7) % 3 == 0))
                                 if t1 is None or t2 is None or t3 is None:
                                     continue
                                 close(ctx, 'mask-additivity', t1 + t2, t3, key,
@@ -521,7 +525,10 @@ def wl_masks(ctx, R):
                                 t = R.tfb(a, dx, efl, wvl, 1 - m1, fdx, (0, 0), method, desc, key)
                                 out = [None]
                                 with ctx.guard(key, desc, what=f'Wavefront.babinet(method={method})'):
-                                    out[0] = R.P.Wavefront(a, wvl, dx).babinet(efl, lyot, m1, fdx, method=method).data
+                                    if (v // 7) % 3 == 0:
+                                        out[0] = R.P.Wavefront(a, wvl, dx).babinet(efl, lyot, m1, fdx, method=method, return_more=True)[0].data
+                                    else:
+                                        out[0] = R.P.Wavefront(a, wvl, dx).babinet(efl, lyot, m1, fdx, method=method).data
                                 if t is None or out[0] is None:
                                     continue
                                 ref = (a - t) if lyot is None else lyot * (a - t)
